@@ -57,6 +57,11 @@ def gen_cases(tier, seed):
             plist.append([{'at': s0, 'act': ['pause', 'p']}, {'at': s0, 'act': ['soon_kill', 'wd']}])
         for i in range(len(prog['steps'])):
             plist.append([{'at': ['step', i], 'act': ['soon_kill', 'wd']}])
+        # the instance is lost at a quiescent point and the process goes on in one recreated from a checkpoint: it is as killable
+        Q = lambda *acts: [{'at': 'q', 'act': list(a)} for a in acts]  # noqa: E731
+        plist += [Q(['reincarnate'], ['kill', 'k']), Q(['pause', 'p'], ['reincarnate'], ['kill', 'k']), Q(['reincarnate'], ['pause', 'p'], ['kill', 'k']),
+                  Q(['reincarnate'], ['cancel_future']), [{'at': 1, 'act': ['pause', 'p']}] + Q(['reincarnate'], ['kill', 'k']),
+                  Q(['reincarnate'], ['reincarnate'], ['kill', 'k']), Q(['reincarnate'], ['soon_kill', 'wd'])]
         # two requests issued from listener callbacks in one run (the second possibly while the first is being carried out)
         for ev1, a1 in (('waiting', ['pause', 'p']), ('running', ['pause', 'p']), ('waiting', ['kill', 'k']), ('running', ['kill', 'k'])):
             for ev2, a2 in (('paused', ['kill', 'k']), ('paused', ['play']), ('played', ['kill', 'k']), ('waiting', ['kill', 'k']), ('running', ['kill', 'k']),
